@@ -120,6 +120,7 @@ COMBINATORS = [
     (r"^std::option::Option::<T>::unwrap_or_else$", "opt_unwrap_or_else"),
     (r"^std::option::Option::<T>::is_some_and$", "opt_is_some_and"),
     (r"^std::option::Option::<T>::map_or$", "opt_map_or"),
+    (r"^std::option::Option::<T>::unwrap_or$", "opt_unwrap_or"),
     (r"^std::option::Option::<T>::map_or_else$", "opt_map_or_else"),
     (r"^std::result::Result::<T, E>::map$", "res_map"),
     (r"^std::result::Result::<T, E>::map_err$", "res_map_err"),
@@ -684,6 +685,9 @@ class Normaliser:
         if kind == "opt_map_or" and len(args) == 3:
             default_op = args[1]  # a plain value, not a callback
             cbs = cbs[1:]
+        if kind == "opt_unwrap_or" and len(args) == 2:
+            default_op = args[1]
+            cbs = [("none", None, None)]
         if not cbs or any(c is None for c in cbs):
             return
         # receiver into a fresh local so that projections are simple
@@ -725,6 +729,9 @@ class Normaliser:
             elif kind == "opt_unwrap_or_else":
                 b_some = sp.new_block([sp.assign(dest, sp.use(MV(some_v)), span)], sp.goto(cont), span)
                 b_none = call(0, [], dest, cont)
+            elif kind == "opt_unwrap_or":
+                b_some = sp.new_block([sp.assign(dest, sp.use(MV(some_v)), span)], sp.goto(cont), span)
+                b_none = sp.new_block([sp.assign(dest, sp.use(default_op), span)], sp.goto(cont), span)
             elif kind == "opt_map_or":
                 e = call(0, [MV(P(pay))], dest, cont)
                 b_some = sp.new_block([sp.assign(P(pay), sp.use(MV(some_v)), span)], sp.goto(e), span)
